@@ -5,9 +5,11 @@
      graph_of_level                the interchange level inferred by open is 3 for EVERY tree ...
      parse_infers_level_refuted    ... even when every name is a level-1 name: the printable name b'.' of the
                                    '.' record is not made of d1 characters (real library: /var/tmp/parse/probe_level.py)
-     parse_truncation_refuted      a file that ends beyond the end of the image: the Inode gets the bytes that
-                                   are left, the RECORD gets the absolute end offset extent*2048+length
-                                   (rec.set_data_length(new_end); real library: /var/tmp/parse/probe_trunc.py)
+     parse_truncation_example      a file that ends beyond the end of the image: Inode and record get the bytes
+                                   that are left (the code after commit 10cfb30; the general statement is
+                                   ParseTrunc.parse_truncation_lengths)
+     parse_truncation_refuted_old  before that commit (ps_link_gen false) the RECORD got the absolute end offset
+                                   extent*2048+length (/var/tmp/parse/probe_trunc.py on the tree before 10cfb30)
      parse_share_lengths_differ    two records with the same extent and different non-zero lengths share one
                                    Inode, whose length is the first record's (probe_same_extent.py) *)
 From Coq Require Import ZArith List Bool Lia.
@@ -90,16 +92,27 @@ Definition ps_ex_cut_parse : presult pgraph :=
   | None => PFuel
   end.
 
-(* the expected property "after open a record's data_length is the length of its Inode" is FALSE *)
-Theorem parse_truncation_refuted :
+(* the repaired code (commit 10cfb30): record and Inode both get the 2000 bytes that are left *)
+Theorem parse_truncation_example :
   exists g c, ps_ex_cut_parse = POk g /\ nth_error (ps_all_recs g) 2 = Some c /\
     p_ino c = Some 0%nat /\ nth_error (g_inodes g) 0 = Some (24, 2000) /\
-    p_dlen c = 24 * 2048 + 5000 /\ ~ p_dlen c = 2000.
+    data_len (p_rec c) = 5000 /\ p_dlen c = 2000.
 Proof.
   unfold ps_ex_cut_parse.
   destruct (master ps_ex_dt ps_ex_cut) as [img|] eqn:E; [|vm_compute in E; discriminate].
   vm_compute in E. injection E as <-.
-  eexists. eexists. split; [vm_compute; reflexivity|]. vm_compute. repeat split; try reflexivity. discriminate.
+  eexists. eexists. split; [vm_compute; reflexivity|]. vm_compute. repeat split; reflexivity.
+Qed.
+
+(* the code BEFORE the repair (ps_link_gen false): "the new record's data_length is the length of its Inode"
+   was FALSE -- the record got the absolute end offset extent*2048+length, the Inode the bytes left *)
+Theorem parse_truncation_refuted_old :
+  exists isz st ext dl i d st1 e l,
+    ps_link_gen false isz st ext dl = (i, d, st1) /\ nth_error (s_inodes st1) i = Some (e, l) /\
+    l = isz - ext * 2048 /\ d = ext * 2048 + dl /\ d <> l.
+Proof.
+  exists ps_ex_cut_size, (ps_init 23 2048), 24, 5000. do 5 eexists.
+  split; [vm_compute; reflexivity|]. vm_compute. repeat split; try reflexivity. discriminate.
 Qed.
 
 (* ---- sharing by extent only ---------------------------------------------------------------------------------- *)
@@ -122,5 +135,6 @@ Proof. eexists. split; [vm_compute; reflexivity|]. vm_compute. split; reflexivit
 Print Assumptions ps_example_ok.
 Print Assumptions graph_of_level.
 Print Assumptions parse_infers_level_refuted.
-Print Assumptions parse_truncation_refuted.
+Print Assumptions parse_truncation_example.
+Print Assumptions parse_truncation_refuted_old.
 Print Assumptions parse_share_lengths_differ.
